@@ -3,6 +3,7 @@ From Coq Require Import List Bool ZArith String.
 From LLIR Require Import Model.MetadataIDs Gen.Printers Gen.FieldFlow.
 From LLIR Require Import Proofs.MetadataIDsProofs Proofs.MetadataFieldProofs Proofs.FieldFlowProofs.
 From LLIR Require Model.Skeleton Proofs.SkeletonProofs.
+From LLIR Require Model.GoEval Proofs.IdPassRefinement.
 Import ListNotations.
 Local Open Scope Z_scope.
 
@@ -79,3 +80,21 @@ Example C17_cyclic_md_refs_accepted :
     [SkeletonProofs.mk Skeleton.NMeta (Skeleton.INum 0) Skeleton.KPlain [{| Skeleton.u_ns := Skeleton.NMeta; Skeleton.u_id := Skeleton.INum 0 |}; {| Skeleton.u_ns := Skeleton.NMeta; Skeleton.u_id := Skeleton.INum 1 |}];
      SkeletonProofs.mk Skeleton.NMeta (Skeleton.INum 1) Skeleton.KPlain [{| Skeleton.u_ns := Skeleton.NMeta; Skeleton.u_id := Skeleton.INum 0 |}]]) = true.
 Proof. reflexivity. Qed.
+
+(* ---- the ID pass as regenerated from ir/module.go ---- *)
+(* the regenerated AssignMetadataIDs (Gen/Printers.v table idpass_bodies: the nextID closure closure-converted, the
+   mutex calls dropped, `for {}` run on loop fuel N) on a module whose metadata definitions carry the IDs ids (-1 =
+   unassigned), of any node kinds and with any other fields, leaves the module with exactly the ID vector the model
+   assign_md_ids computes and returns nil -- or returns an error and the module unchanged where the model reports a
+   collision; so every theorem above about assign_md_ids is a theorem about the code as it is now *)
+Theorem C17_generated_assign_metadata_ids_is_the_model :
+  forall (shs : list IdPassRefinement.shape) (ids : list Z) (rest : list (String.string * GoEval.val)) (N depth : nat),
+  List.length shs = List.length ids -> Forall IdPassRefinement.wf_shape shs -> (List.length ids + 2 <= N)%nat -> (2 <= depth)%nat ->
+  IdPassRefinement.run_idpass IdPassRefinement.no_impl (IdPassRefinement.fuel_env N) depth "ir.Module"%string "AssignMetadataIDs"%string
+    (IdPassRefinement.modv rest (IdPassRefinement.mdos shs ids)) =
+  match MetadataIDs.assign_md_ids ids with
+  | MetadataIDs.Ok ids' => GoEval.Ok (IdPassRefinement.modv rest (IdPassRefinement.mdos shs ids'), GoEval.VNil)
+  | MetadataIDs.Err => GoEval.Ok (IdPassRefinement.modv rest (IdPassRefinement.mdos shs ids), IdPassRefinement.an_error)
+  end.
+Proof. exact IdPassRefinement.generated_assign_metadata_ids_is_model. Qed.
+Print Assumptions C17_generated_assign_metadata_ids_is_the_model.
